@@ -501,6 +501,14 @@ Proof.
     + right; right; exact Hx.
 Qed.
 
+(* the valid-block update of the re-lock (repair of F83) invents no block and leaves the lock alone *)
+Lemma rel_relock r s : Rel (relock_unfixed r s) (relock r s).
+Proof.
+  unfold relock. destruct (_ <? _); [|apply Rel_refl].
+  unfold Rel, has_block. cs. repeat split; auto; try lia.
+  intros b [H|[H|H]]; auto.
+Qed.
+
 Lemma enter_precommit_lk D P SPC height round s s' o :
   Full D P SPC s -> cs_halted s = false -> round_ok height round s ->
   enter_precommit E height round s = (s', o) -> LK D P SPC s s' o.
@@ -558,7 +566,8 @@ Proof.
     { (* relock *)
       destruct (hashes_to_some _ _ HL) as (lb & El & Ehh). subst h.
       refine (Tail _ (Some (b_hash lb, ph)) _ _ _ _ _ _ Eq); cbv beta; cs; try reflexivity; try exact Hh.
-      - rewrite El. apply (core_lock D P SPC s lb _ ph); try assumption. right; left; exact El.
+      - eapply core_rel; [|apply rel_relock]. unfold relock_unfixed.
+        rewrite El. apply (core_lock D P SPC s lb _ ph); try assumption. right; left; exact El.
       - split; [reflexivity | split; [exact Hpol|]]. cbn. destruct C as (_ & _ & BI). exists lb. split; [apply BI; right; left; exact El | reflexivity]. }
     destruct (hashes_to (cs_pblock s) h) eqn:HP.
     { destruct (hashes_to_some _ _ HP) as (pb & Ep & Ehh). subst h. rewrite Ep in Eq.
